@@ -1,7 +1,7 @@
 """C17 - types and forms describe the data truthfully and survive serialisation (tier L + the pure-Python type parser)."""
 import json
+import os
 
-import numpy as np
 from hypothesis import strategies as st
 
 from akgen import gen, forms as GF
@@ -35,6 +35,10 @@ PLAN = {
     "thorough": [{"flavour": "plain", "cases": 800000}, {"flavour": "san", "cases": 200000}],
 }
 WALL_CAP = {"quick": 900, "thorough": 3300}
+if os.environ.get("C17_DEV_SCALE"):     # development only: a fraction of the budget
+    for _tier in PLAN.values():
+        for _p in _tier:
+            _p["cases"] = max(1, int(_p["cases"] * float(os.environ["C17_DEV_SCALE"])))
 FORK_EACH = False
 CFG = gen.Cfg(max_depth=3, leaf_dtypes=("int64", "float64", "bool", "int32", "uint8", "float32", "complex128", "int8", "uint64"), nan=False)
 PROBE_KEYS = ["x", "y", "z", "w", "0", "1", "2", "nope", "", "a b", "é", "-1", "01", "1x", " 1", "7", "99999999999", "99999999999999999999999"]
@@ -406,7 +410,16 @@ def run_M(case, hh):
     if k != "ok":
         return {"tags": ["part:M", "M:refused:" + k, "M:how:" + case["how"]], "nontrivial": len(text) > 30, "sample_class": "M:refused"}
     hh.keep(fh)
-    # accepted: then it is a Form like any other and its JSON must be a fixed point
+    why = MF.outside_grammar(_form_info(fh))
+    if why is not None:
+        # the lenient reader built a Form that describes no array class (e.g. a generic "ListOffsetArray" with "offsets": "i8"):
+        # outside the property's quantifier; only required not to crash or leak a foreign exception when printed
+        for pretty, verbose in ((0, 1), (1, 0)):
+            k2, v2 = _outcome(lambda: _form_tojson(fh, pretty, verbose))
+            if k2 == "OtherNativeError":
+                raise Violation("M:exception", "Form.tojson raises a non-documented C++ exception: " + v2[:200], clause="C12-exception")
+        return {"tags": ["part:M", "M:accepted_outside_grammar", "M:how:" + case["how"]], "nontrivial": False, "sample_class": "M:outside"}
+    # accepted and inside the node grammar: then it is a Form like any other and must survive JSON
     _roundtrip_form(fh, hh, "M", expected=None)
     return {"tags": ["part:M", "M:accepted", "M:how:" + case["how"]], "nontrivial": len(text) > 30, "sample_class": "M:accepted"}
 
@@ -463,17 +476,22 @@ def run_C(case, hh):
     for i in range(min(len(vals), 6)):
         if not gen.conforms(Tplain, vals[i]):
             raise HarnessError("generated value does not conform to its type")
-        e = lay[i]
-        if e is None:
+        # the C++ result of getitem_at, before the binding's box() turns a zero-dimensional NumpyArray into a Python number
+        # (py::cast of an int32_t is a Python int: the width is dropped by pybind11, not by the library)
+        eh = hh.keep(call("getitem_at", [lay._h], [i]).h)
+        cname = result_str(call("classname", [eh]))
+        if cname == "None":
             kind, shown = "none", None
-        elif isinstance(e, L.Record):
-            kind, shown = "record", result_str(call("typestr_ts", [e._h], ss=ss))
-        elif isinstance(e, L.Content):
-            kind, shown = "array", result_str(call("typestr_ts", [e._h], ss=ss))
-        elif isinstance(e, (np.generic, bool, int, float, complex)):
-            kind, shown = "scalar", np.asarray(e).dtype.name
+        elif cname == "Record":
+            kind, shown = "record", result_str(call("typestr_ts", [eh], ss=ss))
+        elif cname == "NumpyArray" and call("isscalar", [eh]).i:
+            # Content::type is not asked of a zero-dimensional NumpyArray (no caller can: box() consumes it); its dtype is read instead
+            hh.hs.remove(eh)                               # the wrapper owns (and releases) the handle
+            kind, shown = "scalar", L.NumpyArray(_h=eh)._info()[6]
+        elif cname in L._CLASSES:
+            kind, shown = "array", result_str(call("typestr_ts", [eh], ss=ss))
         else:
-            raise HarnessError("unexpected element %r" % (e,))
+            raise HarnessError("unexpected element class %r" % (cname,))
         ok = False
         for ck, ct in cands:
             if ck != kind:
@@ -626,7 +644,16 @@ def run_D(case, hh):
     if text != want:
         raise Violation("D:print_model|" + T[0], "the printed type differs from the documented datashape rendering", expected=want, observed=text)
     try:
-        parsed = parse(text, high_level)
+        try:
+            parsed = parse(text, high_level)
+        except AssertionError:
+            # `assert high_level` in parser.py: the text uses a spelling (`option[...]`, `categorical[type=...]`, `Name[...]`) that the
+            # parser only reads with high_level=True - a flag the caller is expected to set (tests/test_0773 does so for a bare
+            # `Thingy[...]`), not a failure of the round trip.  Asked again the way upstream asks.
+            if high_level:
+                raise
+            tags.append("D:retried_high_level")
+            parsed = parse(text, True)
     except HarnessError:
         raise
     except Exception as e:   # the parser's own failures (Lark errors, AssertionError, TypeError from a constructor, ...)
@@ -636,12 +663,12 @@ def run_D(case, hh):
         raise Violation("D:parse_result", "the parser returned %r" % (parsed,), expected=text)
     again = str(parsed)
     diff = _structure_diff(_tinfo(obj._h), _tinfo(parsed._h))
+    if diff:
+        raise Violation("D:structure", "parse(print(T)) is a different type: " + diff, expected=text, observed=again)
     if again != text:
         raise Violation("D:reprint", "parse(print(T)) prints differently", expected=text, observed=again)
     if not (parsed == obj) or not (obj == parsed):
-        raise Violation("D:not_equal", "parse(print(T)) != T" + (" (%s)" % diff if diff else ""), expected=text, observed=again)
-    if diff:
-        raise Violation("D:structure", "parse(print(T)) is a different type: " + diff, expected=text, observed=again)
+        raise Violation("D:not_equal", "parse(print(T)) != T", expected=text, observed=again)
     return {"tags": tags, "nontrivial": _nontrivial_type(T), "sample_class": "D:" + T[0]}
 
 
@@ -666,50 +693,6 @@ def run_case(case):
 
 
 # =========================================================================================== known findings (narrow predicates)
-def _numbers_in(v):
-    for x in _json_leaves(v):
-        if isinstance(x, (int, float)) and not isinstance(x, bool):
-            yield x
-
-
-def _copyjson_trigger(v):
-    """a number that copyjson (src/libawkward/io/json.cpp) mishandles: any double, any integer outside int32"""
-    return any(isinstance(x, float) or not (-2 ** 31 <= x < 2 ** 31) for x in _numbers_in(v))
-
-
-def _desc_parameters(d, acc):
-    if d.get("parameters"):
-        acc.append(d["parameters"])
-    if "content" in d:
-        _desc_parameters(d["content"], acc)
-    for c in d.get("contents", []):
-        _desc_parameters(c, acc)
-    return acc
-
-
-def _case_parameter_values(case):
-    if case["part"] in ("A", "C"):
-        return _desc_parameters(case["desc"], [])
-    if case["part"] == "B":
-        return MF.all_parameter_values(case["json"])
-    if case["part"] == "M":
-        try:
-            return MF.all_parameter_values(json.loads(case["text"]))
-        except ValueError:
-            return []
-    return []
-
-
-def known_copyjson(case, vio):
-    """Form.tojson re-writes parameters through copyjson: doubles are cast to int64, integers beyond int32 raise"""
-    part, _, what = vio["bucket"].partition(":")
-    if part not in ("A2", "B", "M"):
-        return False
-    if not (what.startswith(("print|parameters", "tojson_raises", "fixedpoint", "reread|parameters", "type_survives"))):
-        return False
-    return _copyjson_trigger(_case_parameter_values(case))
-
-
 def _numpy_nodes(j, acc):
     if isinstance(j, dict):
         if j.get("class") == "NumpyArray":
@@ -746,46 +729,27 @@ def known_numpyform_format(case, vio):
     return any(_format_not_canonical(n) for n in _numpy_nodes(j, []))
 
 
-def known_fieldindex_stoi(case, vio):
-    """util::fieldindex falls back to std::stoi(key): "1x", " 1", "+1", "01" are taken as positions, long digit strings escape as
-    std::out_of_range"""
-    if case["part"] != "A" or not vio["bucket"].startswith(("A:query_exception:haskey", "A:query_exception:fieldindex", "A:query_model:haskey",
-                                                           "A:query_model:fieldindex")):
-        return False
-    try:
-        name, _ = json.JSONDecoder().raw_decode(vio["message"])
-    except ValueError:
-        return False
-    if not isinstance(name, str) or ":" not in name:
-        return False
-    key = name.split(":", 1)[1]
-    import re
-    canonical = key.isdigit() and key.isascii() and str(int(key)) == key and len(key) < 10
-    return bool(re.match(r"^\s*[+-]?[0-9]", key)) and not canonical
-
-
 def _d_text(case):
     T = case["type"]
     return TS.show_array(T, case["length"]) if case["length"] is not None else TS.show(T)
 
 
-def known_typeparser_lowlevel(case, vio):
-    """from_datashape(text, high_level=False) asserts on `option[...]`, `categorical[type=...]` and `Name[...]`"""
-    if case["part"] != "D" or vio["bucket"] != "D:parse_error:AssertionError" or case["length"] is not None:
-        return False
-    return bool(d_features(case, _d_text(case)) & {"categorical", "option_bracket", "named_record"})
+def _d_high_level(case, f):
+    """whether the text of a part-D case is parsed with high_level=True: an ArrayType, or a spelling the parser only reads that way"""
+    return case["length"] is not None or bool(f & {"categorical", "option_bracket", "named_record"})
 
 
 def known_typeparser_highlevel_regular(case, vio):
     """from_datashape(text, high_level=True) turns every `n * T` into an ArrayType, not only the outermost one"""
-    if case["part"] != "D" or vio["bucket"] not in ("D:not_equal", "D:structure") or case["length"] is None:
+    if case["part"] != "D" or vio["bucket"] not in ("D:not_equal", "D:structure"):
         return False
-    return bool(d_features(case, _d_text(case)) & {"regular_bare", "regular_bare_top"}) and "regular vs array" in vio["message"]
+    f = d_features(case, _d_text(case))
+    return _d_high_level(case, f) and bool(f & {"regular_bare", "regular_bare_top"}) and "regular vs array" in vio["message"]
 
 
 def known_typeparser_categorical_regular(case, vio):
     """`categorical[type=n * T]` is parsed as `n * categorical[type=T]`: regular_inparm hands the categorical flag to its content"""
-    if case["part"] != "D" or vio["bucket"] not in ("D:reprint", "D:not_equal", "D:structure") or case["length"] is None:
+    if case["part"] != "D" or vio["bucket"] not in ("D:reprint", "D:not_equal", "D:structure"):
         return False
     return "categorical_regular_bare" in d_features(case, _d_text(case))
 
@@ -815,10 +779,7 @@ def known_typeparser_json_literals(case, vio):
 
 
 KNOWN = {
-    "form_tojson_copyjson": known_copyjson,
     "numpyform_format_lost": known_numpyform_format,
-    "fieldindex_stoi": known_fieldindex_stoi,
-    "typeparser_lowlevel_asserts": known_typeparser_lowlevel,
     "typeparser_highlevel_regular": known_typeparser_highlevel_regular,
     "typeparser_categorical_regular": known_typeparser_categorical_regular,
     "typeparser_grammar_gaps": known_typeparser_grammar_gaps,
